@@ -615,3 +615,58 @@ class C10(Base):
             for op, args in self._reject(rng):
                 out.append(Case(op, args, family="oracle-reject", expect="panic"))
         return out
+
+
+@prop("C13")
+class C13(Base):
+    title = "Rad and Deg convert, normalise and evaluate trigonometry consistently"
+    design_ref = "§6 C13"
+    ops = ops_with_prefix("rad.", "deg.")
+    oracle_ops = ["o.rad.modular", "o.deg.modular", "o.angle.convert"]
+    technique = ("Lean 4 theorems (modular arithmetic over any ordered field, rounding-model bounds over the reals) about a "
+                 "model + exact differential correspondence + native f32/f64 range/round-trip checks")
+
+    def n_random(self, tier):
+        return 40 if tier == "quick" else 2000
+
+    def families(self, rng, tier):
+        out = []
+        reps = 6 if tier == "quick" else 200
+        RF = F(884279719003555, 140737488355328)
+        for unit, T in (("rad", RF), ("deg", F(360))):
+            specials = [F(0), T, -T, T / 2, -T / 2, T / 4, 3 * T, -7 * T, T + F(1, 2 ** 40), T - F(1, 2 ** 40),
+                        -F(1, 2 ** 60), F(1, 2 ** 60), T / 2 + F(1, 2 ** 40), T / 2 - F(1, 2 ** 40), F(10), F(50), F(350)]
+            for x in specials:
+                for op in ("normalize", "normalize_signed", "opposite", "to_rad", "to_deg", "sin", "cos", "tan", "sin_cos",
+                           "csc", "sec", "cot", "is_zero"):
+                    out.append(Case(f"{unit}.{op}", [x], family="boundary"))
+                for y in (F(10), F(50), F(350), T / 2, x + T / 2, -x):
+                    out.append(Case(f"{unit}.bisect", [x, y], family="boundary"))
+                    out.append(Case(f"{unit}.rem", [x, y], family="boundary"))
+            for _ in range(reps):
+                k = rng.rng(-50, 50)
+                x = rng.rat() + k * T
+                out.append(Case(f"{unit}.normalize", [x], family="many-turns"))
+                out.append(Case(f"{unit}.normalize_signed", [x], family="many-turns"))
+                out.append(Case(f"{unit}.bisect", [x, rng.rat() + rng.rng(-5, 5) * T], family="many-turns"))
+        # the inputs that exposed the (repaired) bisect defect
+        out.append(Case("deg.bisect", [F(10), F(50)], family="regression"))
+        out.append(Case("deg.bisect", [F(350), F(10)], family="regression"))
+        return out
+
+    def oracle_cases(self, rng, tier):
+        out = []
+        k = 60 if tier == "quick" else 3000
+        RF = F(884279719003555, 140737488355328)
+        for _ in range(k):
+            for unit, T in (("rad", RF), ("deg", F(360))):
+                x = rng.rat() + rng.rng(-20, 20) * T * rng.below(2)
+                y = rng.rat() + rng.rng(-20, 20) * T * rng.below(2)
+                out.append(Case(f"o.{unit}.modular", [x, y], family="oracle"))
+            out.append(Case("o.angle.convert", [rng.rat()], family="oracle"))
+        out.append(Case("o.deg.modular", [F(10), F(50)], family="oracle-regression"))
+        out.append(Case("o.deg.modular", [F(350), F(10)], family="oracle-regression"))
+        return out
+
+    def native_args(self, tier, seed):
+        return ["native", "c13", "200000" if tier == "quick" else "5000000", str(seed)] + (["full"] if tier == "thorough" else [])
